@@ -119,7 +119,8 @@ def check_table(ctx):
     def classify(p):
         if p.outcome.kind != 'return' or p.outcome.expr is None:
             return 'other:' + p.outcome.text()
-        e = t.expand(p.outcome.expr)
+        e = G.fold_builders(prog, t.module_of(p.outcome.frame),
+                            t.expand(p.outcome.expr), classes)
         txt = rec.canon(U(e))
         if txt == FILE_OLD + '.check':
             return 'file-old'
